@@ -1,5 +1,8 @@
 """dev helper (not part of the check): run the streams without the Lean build"""
-import sys, json
+import sys, json, os
+import harness.vlib.core as core
+if os.environ.get("C01_LEAN"):
+    core.LEAN = os.environ["C01_LEAN"]
 from harness.vlib.core import Ctx
 from harness.c01 import run as RUN
 def main():
